@@ -210,6 +210,9 @@ class Contract:
         return self.loops().get((fname, lid))
 
     def apply_at_call(self, I, bound, site, frame):
+        if type(self).result_value is Contract.result_value:
+            from .interp import InlineInstead
+            raise InlineInstead()          # verified on its own, but no call-site abstraction: callers inline it
         a = Args(bound)
         for k, v in self.call_ghosts(I, a, frame, site).items():
             setattr(a, k, v)
